@@ -18,6 +18,7 @@ var files = []genFile{
 	{"Numeric.lean", genNumeric},
 	{"NumericSimp.lean", genNumericSimp},
 	{"Tokens.lean", genTokens},
+	{"JsonTables.lean", genJsonTables},
 }
 
 func main() {
